@@ -89,16 +89,16 @@ def build(v):
     if kind == 'optattrs_empty':
         for a in t['attributes']:
             setattr(inst, a['member'], attr_value(a) if a['required'] else '')
-    if kind in ('child', 'allchildren'):
+    if kind in ('child', 'allchildren', 'mixed_layout'):
         for ch in t['children']:
             if ch['cls'] not in table():
                 continue
-            if kind == 'allchildren' or ch['member'] == v['which']:
+            if kind in ('allchildren', 'mixed_layout') or ch['member'] == v['which']:
                 n = v['n'] if kind == 'child' else 1
                 ccls = get_class(ch['cls'])
                 # (several instances are handed over as a list also where the class holds the child in a single slot)
                 setattr(inst, ch['member'], [ccls() for _ in range(n)] if (ch['list'] or n > 1) else ccls())
-    if kind == 'foreign_child':
+    if kind in ('foreign_child', 'mixed_layout'):
         inst.extension_elements.append(ExtensionElement('foreign', namespace=FOREIGN_NS, text='kept',
                                                         attributes={'a': 'b'}))
     if kind == 'foreign_ownns_child':
@@ -126,7 +126,7 @@ def build(v):
             setattr(inst, a['member'], attr_value(a))
     if kind == 'text_special':
         inst.text = 'a <&> "q" \'s\' ]]> b'
-    if kind == 'text_layout':
+    if kind in ('text_layout', 'mixed_layout'):
         inst.text = '  line one\n   line two  \n\tline three \n'      # white space is content: kept as written
     if kind == 'text_unicode':
         inst.text = u'é ☃ 漢 \U0001F600'
@@ -209,7 +209,7 @@ def main():
     if chk.tier != 'thorough':
         keep = []
         for c in cases:
-            if c['v']['kind'] in ('empty', 'allattrs', 'allchildren', 'foreign_child', 'foreign_attr', 'foreign_ownns_child', 'foreign_nested', 'foreign_samelocal', 'text_denormal', 'ownns_attr', 'ownns_attr_both', 'text_layout', 'optattrs_empty', 'allattrs_altlex', 'allattrs_special') or not c['roundTrips'] \
+            if c['v']['kind'] in ('empty', 'allattrs', 'allchildren', 'foreign_child', 'foreign_attr', 'foreign_ownns_child', 'foreign_nested', 'foreign_samelocal', 'text_denormal', 'ownns_attr', 'ownns_attr_both', 'text_layout', 'mixed_layout', 'optattrs_empty', 'allattrs_altlex', 'allattrs_special') or not c['roundTrips'] \
                     or chk.rng.random() < 0.35:
                 keep.append(c)
         cases = keep
@@ -242,7 +242,7 @@ def main():
                 chk.sample({'variant': v, 'serialised': out.get('text', '')[:200]}, limit=4)
     chk.cov['exhaustive'] = chk.tier == 'thorough'
     chk.cov['rule'] = ('variants of Schema.tla for each of the exported classes (nothing set, each attribute, all attributes, all optional attributes empty, all attributes in another lexical form, all string-like attributes with blanks / markup / non-ASCII, each child '
-                      'with 1..3 instances, all children, foreign child, foreign attribute, a three-level tree with everything set, own-namespace look-alike of a declared attribute, XML-special, non-ASCII and multi-line / padded text): thorough '
+                      'with 1..3 instances, all children, foreign child, foreign attribute, a three-level tree with everything set, own-namespace look-alike of a declared attribute, XML-special, non-ASCII and multi-line / padded text, the latter also as mixed content next to all children): thorough '
                       'all 19 250, quick the structural kinds plus a seeded third of the rest; distinct = distinct (class, variant)')
     chk.cov['classes'] = len(table())
     chk.assumptions = ['single-feature variants are depth-1 instances (children are empty instances of their class); the "deep" variant of '
